@@ -44,7 +44,7 @@ PROPS['C12'] = dict(
 
 PROPS['C15'] = dict(
     level='proof',
-    units=['meta', 'db', 'open'],
+    units=['meta', 'db', 'open', 'writenode'],
     kani_quick=['layout', 'frombuf'],
     explanation='The golden files are replaced by the pinned layout written into the contracts: K1 pins every field offset/size/tag of Page, '
                 'Meta, OldMeta, LeafElement, BranchElement, BucketMeta on the real casts (complete Kani harnesses); M1/M2 pin the checksum input '
@@ -180,7 +180,7 @@ PROPS['C05'] = dict(
     bounded_quick=[('checker', 'stands in for TxInner::check when unit check is undecided (rewritten body): structurally damaged files must be rejected by DB::check()'), ('history', 'Node::spill and InnerBucket::merge_nodes / node (an Rc<RefCell<Node>> graph mutated through shared handles: outside both verifiers), Page::write_node (raw-pointer serialisation) beyond the bounded Kani codec; Node::split / write / free_page / NodeData::merge and InnerBucket::{rebalance, spill, page_node} ARE under contract (units split, nodeio, bucketcommit, overlay)')],
     level='proof',
     composition='the accounting part of INV (pending pages below the high-water mark, not free, pending once; live pages not free) is preserved by begin/end reader and commit: Verus lemma L2 (contracts/lemmas.vtmpl) under assumptions A1/A2',
-    units=['freelist', 'commit', 'open', 'pagenode', 'lemmas', 'bucketops', 'nodeio', 'split', 'bucketcommit', 'check'],
+    units=['freelist', 'commit', 'open', 'pagenode', 'lemmas', 'bucketops', 'nodeio', 'split', 'bucketcommit', 'check', 'writenode'],
     kani_quick=['layout'],
     kani_thorough=['codec'],
     explanation='Page accounting, allocator and serialisation side (the tree-shape half is outside): the allocator never hands out a page that is pending, already allocated in this transaction or a header page, '
@@ -201,7 +201,7 @@ PROPS['C05'] = dict(
 PROPS['C01'] = dict(
     bounded_quick=[('history', 'Node::spill and InnerBucket::merge_nodes / node (an Rc<RefCell<Node>> graph mutated through shared handles: outside both verifiers), Page::write_node (raw-pointer serialisation) beyond the bounded Kani codec; Node::split / write / free_page / NodeData::merge and InnerBucket::{rebalance, spill, page_node} ARE under contract (units split, nodeio, bucketcommit, overlay)'), ('cursor', 'Node::spill and InnerBucket::merge_nodes / node (an Rc<RefCell<Node>> graph mutated through shared handles: outside both verifiers), Page::write_node (raw-pointer serialisation) beyond the bounded Kani codec; Node::split / write / free_page / NodeData::merge and InnerBucket::{rebalance, spill, page_node} ARE under contract (units split, nodeio, bucketcommit, overlay)')],
     level='other',
-    units=['pagenode', 'cursor', 'range', 'guards', 'bucketops', 'bytes', 'split', 'bucketcommit', 'overlay', 'data'],
+    units=['pagenode', 'cursor', 'range', 'guards', 'bucketops', 'bytes', 'split', 'bucketcommit', 'overlay', 'data', 'writenode'],
     kani_quick=['layout'],
     kani_thorough=['codec'],
     explanation='Leaf operations against the mathematical ordered map, for all sizes: Node::insert_data is map insert on a strictly ascending entry sequence (replace on equal key, insert at the sorted position otherwise, '
